@@ -201,6 +201,68 @@ PIN_FOR_TYPE = {'Rn': 'ConfigWithAddress', 'ArRn1': 'ConfigWithArAddress', 'ArRn
                 'R0123': 'ConfigWithAddress', 'R45': 'ConfigWithAddress', 'R04': None}
 
 
+def g8_conditional_aborts(ctx, G8, fi, fg, inst):
+    """abort condition of the interpreter handler restricted to paths decided by operand values only, against the condition
+       under which the generator emits the form"""
+    from .. import summ, boolform
+    if not any(n.get('k') == 'unreachable' for n in walk(fi['body'])):
+        return
+    try:
+        si = summ.summarize(fi, ctx.F['functions'], asserts='ignore')
+        sg = summ.summarize(fg, ctx.F['functions'], asserts='ignore')
+    except summ.Unsupported:
+        ctx.notes.append('G8 not evaluated for %s (handler outside the summarised fragment)' % inst)
+        return
+
+    def operand_only(f):
+        return all(a.count('$') and 'f:' not in a and 'regs' not in a for a in boolform.atoms(f))
+    aborts = boolform.F_
+    for p in si.paths:
+        # only deliberate UNREACHABLE() ends, decided by the operands alone (state-dependent `throw UnimplementedException`
+        # vectors are skipped by the verifier and are not the generator's business)
+        if p.end == 'abort' and operand_only(p.cond):
+            aborts = boolform.any_of(aborts, p.cond)
+    if not boolform.satisfiable(aborts):
+        return
+    emitted = boolform.F_
+    for p in sg.paths:
+        if p.end == 'return' and p.ret is not None and sg.R.r(p.ret) not in ('DisabledConfig', 'Teakra::Test::DisabledConfig'):
+            if 'DisabledConfig' in sg.R.r(p.ret):
+                continue
+            emitted = boolform.any_of(emitted, p.cond)
+    # decide per enumerator of the one operand both conditions select on (the operand always holds one of its enumerators)
+    subj = set()
+    for a in boolform.atoms(aborts) | boolform.atoms(emitted):
+        ops = boolform._operands(a)
+        if not ops:
+            subj.add(None)
+            continue
+        x, y = ops
+        subj.add(y if boolform._is_constant(x) or x.split('::')[-1].isidentifier() and '(' not in x else x)
+    if len(subj) != 1 or None in subj:
+        ctx.notes.append('G8 not evaluated for %s (conditions are not tests of one operand against enumerators)' % inst)
+        return
+    subject = subj.pop()
+    m = re.search(r'Enum(?:All)?Operand<(\w+)', subject)
+    enum = ctx.F['enums'].get(m.group(1)) if m else None
+    if not enum:
+        ctx.notes.append('G8 not evaluated for %s (enumeration of the operand not found)' % inst)
+        return
+
+    def at(f, name):
+        env = {}
+        for a in boolform.atoms(f):
+            x, y = boolform._operands(a)
+            c = x if y == subject else y
+            env[a] = c.split('::')[-1] == name
+        return boolform.ev(f, env)
+    # EnumEnd is the count sentinel of EnumAllOperand, not a value an operand can hold
+    bad = [e['name'] for e in enum['enumerators'] if e['name'] != 'EnumEnd' and at(aborts, e['name']) and at(emitted, e['name'])]
+    if bad:
+        ctx.report(G8, fg, fg['body'], inst + ' reserved operand values',
+                   'the interpreter handler reaches UNREACHABLE() for operand value(s) %s, but the generator still emits the form for them' % bad)
+
+
 def run(ctx):
     F = ctx.F['functions']
     G1, G2, G3, G5, G6, G7 = 'C01.G1', 'C01.G2', 'C01.G3', 'C01.G5', 'C01.G6', 'C01.G7'
@@ -219,6 +281,9 @@ def run(ctx):
     ctx.rule(G7, 'window agreement: generator pins lie inside the windows the verifier compares (offsets in [10, size-10], page '
                  'lock = TestSpaceX >> 8, whitelisted short offsets), the verifier loops cover exactly TestSpaceX/Y + [0, size), '
                  'and the generator pre-bit-reverses a pinned register exactly when the interpreter reverses the address', floor=6)
+    G8 = 'C01.G8'
+    ctx.rule(G8, 'operand-dependent aborts mirror: where the interpreter handler reaches UNREACHABLE() for certain operand values '
+                 '(a reserved code in a switch over the operand), the generator sibling returns DisabledConfig for those values', floor=100)
     ti = {e['index']: e for e in decode.table(ctx.F, INTERP)}
     tg = {e['index']: e for e in decode.table(ctx.F, GEN)}
     ctx.require(len(ti) == len(tg), 'decode tables of Interpreter and TestGenerator differ in length')
@@ -247,6 +312,9 @@ def run(ctx):
         if always_aborts(fi) and enabled:
             ctx.report(G1, fg, enabled[0]['node'], inst, 'the interpreter handler always aborts (unimplemented / unreachable) but the generator emits this form: ' + enabled[0]['text'])
             continue
+        # ---- G8
+        ctx.inst(G8)
+        g8_conditional_aborts(ctx, G8, fi, fg, inst)
         # ---- G2
         ctx.inst(G2)
         if (s['pc'] or s['stack']) and enabled:
